@@ -237,10 +237,51 @@ def run_model(lines, timeout=1800):
 # ---------------------------------------------------------------- Rust side
 
 def target_dir():
+    # one cargo target directory per source directory: cargo's freshness test compares file times only, and workspace members are
+    # fingerprinted by their path RELATIVE to the workspace root, so two checkouts sharing a target directory can reuse each other's artefacts
     rd = repo_dir()
     if rd == "/repo":
         return os.path.join(VERIF, "harness", "target")
     return os.path.join(VERIF, "harness", "target-" + hashlib.sha256(rd.encode()).hexdigest()[:8])
+
+
+def source_hash():
+    """content hash of the repository's working tree sources (everything cargo compiles)"""
+    h = hashlib.sha256()
+    rd = repo_dir()
+    for root, dirs, files in os.walk(rd):
+        dirs[:] = sorted(x for x in dirs if x not in (".git", "target") and not x.startswith("target"))
+        for f in sorted(files):
+            if f.endswith((".rs", ".toml", ".lock")):
+                fp = os.path.join(root, f)
+                h.update(os.path.relpath(fp, rd).encode()); h.update(b"\0")
+                try: h.update(open(fp, "rb").read())
+                except OSError: pass
+                h.update(b"\0")
+    return h.hexdigest()
+
+
+def ensure_fresh():
+    """cargo decides freshness by file times alone: a source tree put back with older file times (a restored copy, rsync -a, a checkout from another
+    clone) would be taken for the tree that was compiled last.  The content hash of the sources is recorded beside the target directories; when it
+    differs from the recorded one, the fingerprints of the repository's crates are removed from every target directory of this source directory,
+    which forces cargo to recompile them (nothing in the repository is touched)."""
+    import fcntl, glob, shutil
+    base = target_dir()
+    os.makedirs(os.path.dirname(base), exist_ok=True)
+    stamp = base + ".srchash"
+    with open(stamp + ".lock", "w") as lk:
+        fcntl.flock(lk, fcntl.LOCK_EX)
+        cur = source_hash()
+        old = open(stamp).read().strip() if os.path.exists(stamp) else None
+        if old != cur:
+            for td in glob.glob(base + "*"):
+                if not os.path.isdir(td): continue
+                for fpd in glob.glob(os.path.join(td, "*", ".fingerprint", "*")):
+                    n = os.path.basename(fpd)
+                    if n.startswith("ascent"):
+                        shutil.rmtree(fpd, ignore_errors=True)
+            with open(stamp, "w") as f: f.write(cur)
 
 
 def prepare_crate(name):
